@@ -17,27 +17,27 @@ PROPS = {
                 preds=["Conservation", "UnknownNeverDropped"]),
     "C04": dict(families=["term", "scalar-s"], lens={"rest", "vals", "called", "err"}, rand=("C04", 6000, 150000),
                 preds=["TerminatorRoles", "Frozen (action property)"]),
-    "C05": dict(families=["abbrev"], lens={"vals", "called", "as", "err"}, rand=("C05", 6000, 150000),
+    "C05": dict(families=["abbrev"], lens={"vals", "called", "as", "err"}, rand=("C05", 6000, 400000),
                 preds=["UniquePrefixEqFull", "ExactWins", "AmbiguousRejectedAll"]),
-    "C06": dict(families=["alias"], lens={"vals", "called", "as", "agree"}, rand=("C06", 6000, 150000),
+    "C06": dict(families=["alias"], lens={"vals", "called", "as", "agree"}, rand=("C06", 6000, 400000),
                 preds=["AliasEqPrimary", "CalledExact", "UntouchedKeepDefault", "FrameOneOption (action property)"]),
     "C07": dict(families=["modes"], lens={"vals", "called", "as", "rest", "err"}, rand=("C07", 6000, 150000),
                 preds=["LongModeIndependent", "RewriteEquiv"]),
     "C08": dict(families=["wrapper", "conserve"], lens={"err", "warn", "rest"}, rand=("C08", 6000, 150000),
                 preds=["UnknownNeverDropped"]),
-    "C10": dict(families=["tree"], lens={"ran", "derr", "helpof", "rest", "writer"}, rand=("C10", 6000, 150000),
+    "C10": dict(families=["tree"], lens={"ran", "derr", "helpof", "rest", "writer"}, rand=("C10", 6000, 400000),
                 preds=["ExactlyOneFn", "DeepestCommand"]),
-    "C11": dict(families=["required"], lens={"err", "derr", "ran", "helpof", "writer"}, rand=("C11", 6000, 150000),
+    "C11": dict(families=["required"], lens={"err", "derr", "ran", "helpof", "writer"}, rand=("C11", 6000, 600000),
                 preds=["RequiredEnforced"]),
-    "C12": dict(families=["env", "valid"], lens={"vals", "called", "as"}, rand=("C12", 6000, 150000),
+    "C12": dict(families=["env", "valid"], lens={"vals", "called", "as"}, rand=("C12", 6000, 800000),
                 preds=["EnvPrecedence", "CalledExact", "UntouchedKeepDefault"]),
-    "C17": dict(families=["complete", "complete-eq"], lens={"comps", "exits", "ran", "writer"}, rand=("C17", 6000, 150000),
+    "C17": dict(families=["complete", "complete-eq"], lens={"comps", "exits", "ran", "writer"}, rand=("C17", 6000, 800000),
                 preds=["CandidatesExact", "OfferedAccepted"]),
-    "C18": dict(families=["helpdoc"], lens={"help", "helpcomplete", "helpof"}, rand=("C18", 2500, 60000), relational=False,
+    "C18": dict(families=["helpdoc"], lens={"help", "helpcomplete", "helpof"}, rand=("C18", 2500, 400000), relational=False,
                 preds=["HelpDocComplete (evaluated on the parsed real text)", "HelpDocOf equality", "three paths same text"]),
     "C19": dict(families=["modes", "wrapper", "complete-eq"], lens={"panic", "hang", "rest", "exits"}, fuzz=(16000, 800000), level="exploration",
                 preds=["NotStuck", "VariantDecreases (action property)", "ErrImpliesNilRest"]),
-    "C20": dict(families=["order", "complete", "complete-eq"], lens={"nondet", "err", "derr", "comps", "warn"}, rand=[("C20", 4000, 100000), ("C20c", 2000, 50000)],
+    "C20": dict(families=["order", "complete", "complete-eq"], lens={"nondet", "err", "derr", "comps", "warn"}, rand=[("C20", 4000, 300000), ("C20c", 2000, 200000)],
                 repeat=6, twice=True, preds=["FixedRule"]),
     "C09": dict(families=["term", "conserve"], lens={"rest", "vals", "called"}, rand=("C09", 6000, 150000),
                 preds=["StopRoles", "PrefixAsUnordered", "NoStopAsUnordered", "Frozen (action property)"]),
